@@ -44,10 +44,17 @@ def _decorate_tree(d, tree, v, rng):
     if v.get("ann"):
         tree.annotations.add_new("color", "blue")
         tree.annotations.add_bound_attribute("label")
+        tree.annotations.add_new("score", 0.5, datatype_hint="xsd:double", real_value_format_specifier=".3f", is_hidden=True)
         if v.get("rich"):
             tree.annotations.add_bound_attribute("weight")
             a = tree.annotations.add_new("nested", "outer")
             a.annotations.add_new("inner", 7)
+            # annotations with non-default constructor options and an attribute set after creation
+            tree.annotations.add_new("support", 0.9, datatype_hint="xsd:double", real_value_format_specifier=".2f")
+            h = tree.annotations.add_new("citation", "http://example.org/x", name_prefix="dc",
+                                         namespace="http://purl.org/dc/elements/1.1/", annotate_as_reference=True, is_hidden=True)
+            h.rank = 3
+            h.tags = ["t1"]
             for i, nd in enumerate(nodes):
                 if i % 2 == 0:
                     nd.annotations.add_new("support", i)
@@ -99,6 +106,7 @@ def _mk_ns(d, v, n):
     if v.get("ns_ann"):
         ns.label = "NSL"
         ns.annotations.add_new("source", "field")
+        ns.annotations.add_new("version", 1.25, real_value_format_specifier=".1f", is_hidden=True).checked = True
         ns.annotations.add_bound_attribute("label")
         ns.comments.append("ns comment")
         taxa[0].annotations.add_new("habitat", "forest")
@@ -117,6 +125,31 @@ def _mk_tree(d, v, ns, taxa, rng, nested=None):
     return t
 
 
+def _cross_reference(d, tl, v):
+    """cross-references between the members of one tree list (variant key "xref")"""
+    x = v.get("xref")
+    if not x:
+        return
+    trees = list(tl._trees)
+    if x in ("extract-first", "extract-last"):
+        # a tree made with extract_tree() (its nodes refer back to the nodes they were extracted from) sits in
+        # the same list as its original, listed before / after it
+        o = trees[0]
+        e = o.extract_tree(suppress_unifurcations=False)
+        e.label = "extracted"
+        if x == "extract-first":
+            tl.insert(0, e)
+        else:
+            tl.append(e)
+    elif x == "annotations" and len(trees) >= 2:
+        # a tree annotated with a reference to another tree's node, and two trees sharing one annotation target
+        a, b = trees[0], trees[1]
+        a.annotations.add_bound_attribute("label", annotation_name="other_root", owner_instance=b._seed_node)
+        a.annotations.add_bound_attribute("label", annotation_name="list_label", owner_instance=tl)
+        b.annotations.add_bound_attribute("label", annotation_name="list_label", owner_instance=tl)
+        b._seed_node.annotations.add_new("sister_tree_leaf", _nodes(a)[-1])
+
+
 def build_object(d, cls, v, rng):
     if cls == "Tree":
         ns, taxa = _mk_ns(d, v, v["nleaves"])
@@ -130,6 +163,8 @@ def build_object(d, cls, v, rng):
         if v.get("ann"):
             tl.annotations.add_new("run", 3)
             tl.annotations.add_bound_attribute("label")
+            tl.annotations.add_new("ess", 101.5, real_value_format_specifier=".1f").origin = "mcmc"
+        _cross_reference(d, tl, v)
         if v.get("comments"):
             tl.comments.append("list comment")
         if v.get("extra"):
@@ -152,6 +187,7 @@ def build_object(d, cls, v, rng):
         if v.get("ann"):
             m.annotations.add_new("gene", "cox1")
             m.annotations.add_bound_attribute("label")
+            m.annotations.add_new("gc", 0.412, datatype_hint="xsd:float", real_value_format_specifier=".2f", annotate_as_reference=False)
             if v.get("rich"):
                 m[taxa[0]].annotations.add_new("voucher", "X1")
         if v.get("comments"):
@@ -528,7 +564,7 @@ T3 = _t("r", None, None, [_t("a", 0, 1, []), _t("i", None, 2, [_t("b", 1, 1, [])
 
 def variants(cls, shape, quick):
     """real objects standing for one model shape (kinds of the model heap decide annotated / bare)"""
-    annotated = "AnnotationSet" in shape
+    annotated = "AnnotationSet" in (shape["kind"] if isinstance(shape, dict) else shape)
     if cls == "Tree":
         if annotated:
             vs = [{"name": "t2-annotated", "nested": T2, "nleaves": 2, "rooted": True, "ann": True, "comments": True},
@@ -539,6 +575,13 @@ def variants(cls, shape, quick):
                   {"name": "t4-polytomy-unrooted", "nested": T4P, "nleaves": 4, "rooted": False, "ns_order": "reverse"},
                   {"name": "t3-encoded", "nested": T3, "nleaves": 3, "rooted": True, "encode": True, "extra": True}]
         return vs
+    if cls == "TreeList" and isinstance(shape, dict) and shape["kind"].count("Tree") >= 2:
+        # model shapes with a cross-reference between two members: from the first to the second / the reverse
+        first = len(shape["succ"][4]) > 2
+        return [{"name": "l-xref-extract-" + ("first" if first else "last"), "trees": [T5], "nleaves": 5, "rooted": True,
+                 "ann": True, "comments": True, "xref": "extract-first" if first else "extract-last"},
+                {"name": "l-xref-annotations-" + ("fwd" if first else "rev"), "trees": [T3, T2] if first else [T2, T3],
+                 "nleaves": 3, "rooted": True, "ann": True, "xref": "annotations"}]
     if cls == "TreeList":
         return [{"name": "l1", "trees": [T2], "nleaves": 2, "rooted": True, "ann": True, "comments": True},
                 {"name": "l3-rich", "trees": [T5, T3, T2], "nleaves": 5, "rooted": True, "ann": True, "rich": True, "comments": True,
@@ -571,7 +614,7 @@ def model_cases(ctx, cfg, smallest_only=False):
             continue
         if any(s[0] in ("Copy", "Recopy") and s[1] not in ROUTES[cls] for s in steps):
             continue
-        vs = variants(cls, init["g"]["kind"], ctx.quick)
+        vs = variants(cls, init["g"], ctx.quick)
         if smallest_only:
             vs = vs[:1] if ctx.quick else vs[:2]
         for vi, var in enumerate(vs):
@@ -604,7 +647,8 @@ def random_case(rng, k, seed):
         var = dict(feats, name="rand-tree", nested=rtree(nl), nleaves=nl, weight=rng.choice([None, 1, 2]))
     elif cls == "TreeList":
         nl = rng.randint(4, 7)
-        var = dict(feats, name="rand-list", trees=[rtree(nl) for _ in range(rng.randint(1, 4))], nleaves=nl)
+        var = dict(feats, name="rand-list", trees=[rtree(nl) for _ in range(rng.randint(1, 4))], nleaves=nl,
+                   xref=rng.choice([None, None, "extract-first", "extract-last", "annotations"]))
     elif cls == "Matrix":
         nt = rng.randint(3, 6)
         nc = rng.randint(2, 6)
@@ -636,7 +680,8 @@ BROKEN = [("Broken_CopySem_no_preseed_taxa.cfg", "EqualAfterCopy"),
           ("Broken_CopySem_annset_keeps_target.cfg", "BoundAnnotationsFollowCopy"),
           ("Broken_CopySem_thin_shares_edge.cfg", "SharingExactlyAsDocumented"),
           ("Broken_CopySem_clone1_shares_trees.cfg", "SharingExactlyAsDocumented"),
-          ("Broken_CopySem_locked_ns_shared.cfg", "SharingExactlyAsDocumented")]
+          ("Broken_CopySem_locked_ns_shared.cfg", "SharingExactlyAsDocumented"),
+          ("Broken_CopySem_xref_target_kept.cfg", "SharingExactlyAsDocumented")]
 
 
 def _split_drift(ctx):
